@@ -25,6 +25,27 @@ def convert(e):
             'd': dyv(np.asarray(e['d'], dtype=float)), 'via': 'suite', 'cls': e['cls'], 'method': e['method']}
   if e['ev'] in ('CallConsPairs', 'CallConsChunks'):
     return dict(e)
+  if e['ev'] == 'CallFitCov':
+    return {'ev': 'CovarianceFit', 'X': dym(np.asarray(e['X'], dtype=float)), 'exc': '', 'L': dym(np.asarray(e['L'], dtype=float)),
+            'kind': 'suite', 'cls': e['cls'], 'method': 'fit'}
+  if e['ev'] == 'CallFitRca':
+    import scipy.linalg
+    X = np.asarray(e['X'], dtype=float)
+    ch = np.asarray(e['chunks'])
+    L = np.asarray(e['L'], dtype=float)
+    ev = {'ev': 'RcaFit', 'X': dym(X), 'chunks': [int(v) for v in ch], 'exc': '', 'L': dym(L), 'Vt': [], 'lam': [],
+          'n_components': 0 if L.shape[0] == X.shape[1] else int(L.shape[0]), 'cls': e['cls'], 'method': 'fit'}
+    try:
+      # witness (verified by TLC): generalised eigen-decomposition C_w v = lam C_t v, V^T C_t V = I
+      m = ch != -1
+      Xc = X[m].copy()
+      for c in np.unique(ch[m]):
+        Xc[ch[m] == c] -= Xc[ch[m] == c].mean(axis=0)
+      lam, V = scipy.linalg.eigh(Xc.T.dot(Xc) / len(Xc), np.atleast_2d(np.cov(X[m], rowvar=False)))
+      ev['Vt'], ev['lam'] = dym(V.T), dyv(lam)
+    except Exception:
+      pass
+    return ev
   ev = {'ev': e['ev'], 'method': e['method'], 'cls': e['cls'], 'L': dym(np.asarray(e['L'], dtype=float).reshape(len(e['L']), -1))}
   if e['ev'] == 'CallMatrix':
     ev['M'] = dym(np.asarray(e['M'], dtype=float))
@@ -52,6 +73,8 @@ def usable(e, kinds):
         and len(e['d']) == len(e['y']) and 1 in e['y'] and -1 in e['y']
   if e['ev'] in ('CallConsPairs', 'CallConsChunks'):
     return True
+  if e['ev'] in ('CallFitCov', 'CallFitRca'):
+    return np.asarray(e['X']).ndim == 2 and np.asarray(e['L']).ndim == 2
   L = np.asarray(e['L'], dtype=float)
   if L.ndim != 2 or L.shape[0] == 0:
     return False
